@@ -134,6 +134,18 @@ InvC03 == ForRuns(LAMBDA e, r :
                 /\ CallsOk(e, r, pcat)
                 /\ HasField(r, "audit") => DocsAuditOk(r.audit, cat) /\ CatalogAuditOk(r.audit, cat))
 
+\* ... and they are the documents the same query returned a moment before (FindAll issued right
+\* before the bulk operation, nothing in between): also where the specification leaves the choice
+\* open (a window without a total order), the two calls must make the same one
+Prev == Log[l - 2]
+InvC03Pair ==
+    (l > 2 /\ HaveLast /\ popen /\ Last.op \in BulkOps /\ Prev.op = "FindAll"
+       /\ HasField(Prev, "q") /\ HasField(Prev, "c") /\ Prev.c = Last.c /\ Prev.q = Last.q /\ HasColl(pcat, Last.c)) =>
+      \A i \in DOMAIN Last.runs :
+         (i \in DOMAIN Prev.runs /\ Prev.runs[i].res.st = "ok" /\ OkRun(Last, Last.runs[i])
+            /\ (Last.op = "UpdateFunc" \/ HasField(Last.runs[i], "audit"))) =>
+            HintOf(Last, Last.runs[i], pcat, pfiles).sel \subseteq {DocId(Prev.runs[i].res.val[k]) : k \in DOMAIN Prev.runs[i].res.val}
+
 (* C02: bulk operations select the same documents whatever the indexes     *)
 InvC02 == ForRuns(LAMBDA e, r :
              (e.op \in BulkOps \cup {"FindAll", "Count", "Derived"}) =>
